@@ -130,7 +130,11 @@ func AsPDU(c Codec) sms.PDU { p, _ := c.(sms.PDU); return p }
 var ExtraFields = map[string]bool{}
 
 // Fill writes v into a fresh library value.
-func (b *Binding) Fill(v *ref.Vals) Codec {
+func (b *Binding) Fill(v *ref.Vals) Codec { return b.FillOpt(v, false) }
+
+// FillOpt: with rawIDs the SMGP message ids are given as their 10 raw octets (the other form the
+// encoders accept) instead of the 20-digit hexadecimal form the decoders produce.
+func (b *Binding) FillOpt(v *ref.Vals, rawIDs bool) Codec {
 	c := b.New()
 	rv := reflect.ValueOf(c).Elem()
 	if b.Spec.Hdr != ref.HdrNone {
@@ -159,7 +163,11 @@ func (b *Binding) Fill(v *ref.Vals) Codec {
 		case ref.FixStr, ref.CStr, ref.Bin:
 			fv.SetString(string(v.B(f.Name)))
 		case ref.HexID:
-			fv.SetString(hex.EncodeToString(v.B(f.Name)))
+			if rawIDs {
+				fv.SetString(string(v.B(f.Name)))
+			} else {
+				fv.SetString(hex.EncodeToString(v.B(f.Name)))
+			}
 		case ref.List:
 			l := v.L(f.Name)
 			if l == nil {
